@@ -365,6 +365,40 @@ func c02Gen_(t *rapid.T, tier Tier) interface{} {
 	return c
 }
 
+// c02FixedInsideBlock: some outermost fixed-position box of the document is not a child of body
+func c02FixedInsideBlock(html string) bool {
+	body := html
+	if i := strings.Index(html, "<body>"); i >= 0 {
+		body = html[i:]
+	}
+	depth := 0 // open div / table / list elements around the current position
+	for i := 0; i < len(body); i++ {
+		switch {
+		case strings.HasPrefix(body[i:], `<div style="position:fixed`):
+			if depth > 0 {
+				return true
+			}
+			// skip the fixed box itself (and what it holds)
+			d := 0
+			for ; i < len(body); i++ {
+				if strings.HasPrefix(body[i:], "<div") {
+					d++
+				} else if strings.HasPrefix(body[i:], "</div>") {
+					d--
+					if d == 0 {
+						break
+					}
+				}
+			}
+		case strings.HasPrefix(body[i:], "<div"), strings.HasPrefix(body[i:], "<table"), strings.HasPrefix(body[i:], "<ul"), strings.HasPrefix(body[i:], "<ol"):
+			depth++
+		case strings.HasPrefix(body[i:], "</div>"), strings.HasPrefix(body[i:], "</table>"), strings.HasPrefix(body[i:], "</ul>"), strings.HasPrefix(body[i:], "</ol>"):
+			depth--
+		}
+	}
+	return false
+}
+
 var c02Token = regexp.MustCompile(`([A-Z]{1,2})([0-9]+)`)
 
 func c02Check(ci interface{}) Verdict {
@@ -445,8 +479,9 @@ func c02Check(ci interface{}) Verdict {
 			fx := ""
 			if strings.Contains(c.HTML, "float:footnote") {
 				fx = ":with-footnote"
-			} else if strings.Contains(c.HTML, "break-before:avoid") || strings.Contains(c.HTML, "break-after:avoid") {
-				fx = ":with-avoided-break"
+			} else if strings.Contains(c.HTML, "break-before:avoid") || strings.Contains(c.HTML, "break-after:avoid") || c02FixedInsideBlock(c.HTML) {
+				// the block holding the fixed box may be laid out, abandoned and laid out again
+				fx = ":laid-out-again"
 			}
 			if len(got) != f.N*len(r.Pages) {
 				return Viol("fixed:count"+fx, "the %d words of the fixed-position flow %s appear %d times in total over %d pages (once per page expected): %v\n%s", f.N, f.ID, len(got), len(r.Pages), got, doc())
